@@ -38,6 +38,7 @@ func nodeProps() map[string]simrt.Prop {
 		"C29":   {Run: runNode("C29"), Opt: opt},
 		"C54":   {Run: runNode("C54"), Opt: opt},
 		"C15":   {Run: runC15, Opt: opt},
+		"C47":   {Run: runC47, Opt: opt},
 	}
 }
 
